@@ -255,6 +255,10 @@ OpStep(e) ==
        THEN /\ Fail("C06", "unexpected-error", e)
             /\ PrintT(<<"EXPECTED", exp, "GOT", e.res>>)
             /\ skip' = TRUE /\ UNCHANGED s
+       ELSE IF e.op = "read_to_end" /\ Has(e.res, "partial") /\ s.hd.known /\ s.mode \in {"ro_faults", "plain"}
+               /\ ~(RLen(e.res.partial) <= Len_(s) - s.hd.cur /\ RNorm(e.res.partial) = RSlice(s.hd.view, s.hd.cur, RLen(e.res.partial)))
+       THEN \* a failed read_to_end leaves in the caller's vector only bytes it really read: a prefix of the rest of the stream
+            /\ Fail(IF s.mode = "ro_faults" THEN "C12" ELSE "C06", "read_to_end-partial", e) /\ skip' = TRUE /\ UNCHANGED s
        ELSE /\ s' = AfterErr(s, e) /\ skip' = FALSE                         \* injected failure surfaced
   ELSE (* Ok result *)
        IF exp # {}
